@@ -90,7 +90,7 @@ pub fn spawn_sni_server(
 // C12
 // ---------------------------------------------------------------------------------------------
 
-const RULE12: &str = "TLS worlds on duplex (paused clock) and TCP: client = public stack with TlsTransport::with_tls(fixture CA); cases = scheme {http, https, ws, wss, ftp, HTTPS, Wss, WSS; parsed from text and assembled from parts incl. Https, hTTpS} x caller-supplied Host header naming another host {absent, other.test} x host {DNS lower/upper/underscore/punycode, IPv4 literal, [::1], [::ffff:127.0.0.1]} x port {absent, default, other} x server certificate {matching, wrong name, untrusted CA, expired} x ALPN offers on both sides x handshake faults {peer closes after ClientHello, peer answers plaintext, truncated ServerHello, stall}; oracle = client-side byte tap of the raw transport (TLS record header first, request marker never in the clear), SNI seen by the server, client result, panic hook; non-trivial = every case; distinct by case";
+const RULE12: &str = "TLS worlds on duplex (paused clock) and TCP: client = public stack with TlsTransport::with_tls(fixture CA); cases = scheme {http, https, ws, wss, ftp, HTTPS, Wss, WSS; parsed from text and assembled from parts incl. Https, hTTpS} x caller-supplied Host header naming another host {absent, other.test} x user information in the authority x numeric-looking non-IPv4 hosts; sequences of 2-3 requests with different schemes to one authority through one pooled client (plain and TLS server behind the same authority); host {DNS lower/upper/underscore/punycode, IPv4 literal, [::1], [::ffff:127.0.0.1]} x port {absent, default, other} x server certificate {matching, wrong name, untrusted CA, expired} x ALPN offers on both sides x handshake faults {peer closes after ClientHello, peer answers plaintext, truncated ServerHello, stall}; oracle = client-side byte tap of the raw transport (TLS record header first, request marker never in the clear), SNI seen by the server, client result, panic hook; non-trivial = every case; distinct by case";
 
 #[derive(Clone, Debug, Hash)]
 pub struct TlsCase {
@@ -107,16 +107,22 @@ pub struct TlsCase {
     pub from_parts: bool,
     /// a Host header supplied by the caller, naming something else than the URI host
     pub preset_host: Option<&'static str>,
+    /// user information in front of the host (`userinfo@host`)
+    pub userinfo: Option<&'static str>,
 }
 
 impl TlsCase {
     fn to_json(&self) -> Value {
-        json!({"engine": "tlsworld", "scheme": self.scheme, "host": self.host, "port": self.port, "cert": self.cert, "client_alpn": self.client_alpn, "server_alpn": self.server_alpn, "fault": self.fault, "h2_request": self.h2_request, "tcp": self.tcp, "from_parts": self.from_parts, "preset_host": self.preset_host})
+        json!({"engine": "tlsworld", "scheme": self.scheme, "host": self.host, "port": self.port, "cert": self.cert, "client_alpn": self.client_alpn, "server_alpn": self.server_alpn, "fault": self.fault, "h2_request": self.h2_request, "tcp": self.tcp, "from_parts": self.from_parts, "preset_host": self.preset_host, "userinfo": self.userinfo})
     }
     fn authority(&self) -> String {
-        match self.port {
+        let hp = match self.port {
             Some(p) => format!("{}:{}", self.host, p),
             None => self.host.to_string(),
+        };
+        match self.userinfo {
+            Some(u) => format!("{u}@{hp}"),
+            None => hp,
         }
     }
 }
@@ -263,7 +269,17 @@ fn contains(hay: &[u8], needle: &[u8]) -> bool {
 
 pub fn judge_tls(c: &TlsCase, o: &TlsOutcome, rep: &mut Report, args: &Args) {
     let replay = c.to_json();
-    let host_class = if c.host.starts_with('[') { "ipv6-literal" } else if c.host.chars().all(|ch| ch.is_ascii_digit() || ch == '.') { "ipv4-literal" } else { "dns-name" };
+    let numeric_last_label = c.host.rsplit('.').next().map(|l| !l.is_empty() && l.chars().all(|ch| ch.is_ascii_digit())).unwrap_or(false);
+    let host_class = if c.host.starts_with('[') {
+        "ipv6-literal"
+    } else if c.host.parse::<std::net::Ipv4Addr>().is_ok() {
+        "ipv4-literal"
+    } else if numeric_last_label {
+        // URI-legal, but neither an IPv4 literal nor a name a certificate can be issued for
+        "numeric-not-ipv4"
+    } else {
+        "dns-name"
+    };
     let scheme_class = if c.scheme.chars().any(|ch| ch.is_ascii_uppercase()) { format!("{}-mixed-case", c.scheme.to_ascii_lowercase()) } else { c.scheme.to_string() };
     if args.wants("C12") {
         let p = rep.prop("C12", RULE12);
@@ -277,6 +293,9 @@ pub fn judge_tls(c: &TlsCase, o: &TlsOutcome, rep: &mut Report, args: &Args) {
         }
         if c.preset_host.is_some() {
             p.count("cases_caller_host_header_differs_from_uri_host", 1);
+        }
+        if c.userinfo.is_some() {
+            p.count("cases_uri_with_userinfo", 1);
         }
         if let Some(pn) = &o.panicked {
             p.violation(format!("panic:{host_class}:{scheme_class}"), format!("request to {}://{} panicked: {pn} | case {replay}", c.scheme, c.authority()), replay.clone());
@@ -295,7 +314,7 @@ pub fn judge_tls(c: &TlsCase, o: &TlsOutcome, rep: &mut Report, args: &Args) {
             if !o.tap.is_empty() && !(o.tap[0] == 0x16 && o.tap.get(1) == Some(&0x03)) {
                 p.violation(format!("first-bytes-not-tls:{scheme_class}"), format!("first bytes on the wire {:02x?} are not a TLS handshake record | case {replay}", &o.tap[..o.tap.len().min(8)]), replay.clone());
             }
-            let must_fail = c.cert != "good" || c.fault != "none";
+            let must_fail = c.cert != "good" || c.fault != "none" || host_class == "numeric-not-ipv4" || c.host == "other.test";
             match (&o.result, must_fail) {
                 (Ok(_), true) => p.violation(format!("request-succeeded-despite:{}:{}", c.cert, c.fault), format!("request succeeded although the peer certificate/handshake must be rejected | case {replay}"), replay.clone()),
                 (Err(e), false) if o.panicked.is_none() && !o.timed_out => {
@@ -334,7 +353,7 @@ pub fn judge_tls(c: &TlsCase, o: &TlsOutcome, rep: &mut Report, args: &Args) {
             p.sample(json!({"case": replay, "result": o.result.as_ref().map(|r| r.0.as_u16()).map_err(|e| e.chars().take(120).collect::<String>()), "first_wire_bytes": format!("{:02x?}", &o.tap[..o.tap.len().min(6)]), "sni_seen": o.handled.first().and_then(|h| h.tls_sni.clone())}));
         }
     }
-    if args.wants("C13") && c.fault == "none" && c.cert == "good" {
+    if args.wants("C13") && c.fault == "none" && c.cert == "good" && c.userinfo.is_none() {
         let p = rep.prop("C13", RULE13W);
         if let (Ok(_), Some(h)) = (&o.result, o.handled.first()) {
             p.eval(Some(hash_of(&format!("{replay}"))));
@@ -409,7 +428,7 @@ pub fn gen_tls_cases(thorough: bool) -> Vec<TlsCase> {
                         if !thorough && (port == Some(80) || port == Some(8443)) && (ca, sa) != (BOTH, BOTH) {
                             continue;
                         }
-                        v.push(TlsCase { scheme, host, port, cert: "good", client_alpn: ca, server_alpn: sa, fault: "none", h2_request, tcp: false, from_parts: false, preset_host: None });
+                        v.push(TlsCase { scheme, host, port, cert: "good", client_alpn: ca, server_alpn: sa, fault: "none", h2_request, tcp: false, from_parts: false, preset_host: None, userinfo: None });
                     }
                 }
             }
@@ -423,11 +442,11 @@ pub fn gen_tls_cases(thorough: bool) -> Vec<TlsCase> {
                     continue;
                 }
                 for h2_request in [false, true] {
-                    v.push(TlsCase { scheme, host, port: Some(443), cert, client_alpn: BOTH, server_alpn: BOTH, fault: "none", h2_request, tcp: false, from_parts: false, preset_host: None });
+                    v.push(TlsCase { scheme, host, port: Some(443), cert, client_alpn: BOTH, server_alpn: BOTH, fault: "none", h2_request, tcp: false, from_parts: false, preset_host: None, userinfo: None });
                 }
             }
             for fault in ["close-after-hello", "plaintext-answer", "truncated-server-hello", "stall"] {
-                v.push(TlsCase { scheme, host, port: None, cert: "good", client_alpn: BOTH, server_alpn: BOTH, fault, h2_request: false, tcp: false, from_parts: false, preset_host: None });
+                v.push(TlsCase { scheme, host, port: None, cert: "good", client_alpn: BOTH, server_alpn: BOTH, fault, h2_request: false, tcp: false, from_parts: false, preset_host: None, userinfo: None });
             }
         }
     }
@@ -439,12 +458,12 @@ pub fn gen_tls_cases(thorough: bool) -> Vec<TlsCase> {
                     if !thorough && h2_request && port == Some(8443) {
                         continue;
                     }
-                    v.push(TlsCase { scheme, host, port, cert: "good", client_alpn: BOTH, server_alpn: BOTH, fault: "none", h2_request, tcp: false, from_parts: true, preset_host: None });
+                    v.push(TlsCase { scheme, host, port, cert: "good", client_alpn: BOTH, server_alpn: BOTH, fault: "none", h2_request, tcp: false, from_parts: true, preset_host: None, userinfo: None });
                 }
             }
             if secure(scheme) && host != "[::1]" {
-                v.push(TlsCase { scheme, host, port: None, cert: "wrongname", client_alpn: BOTH, server_alpn: BOTH, fault: "none", h2_request: false, tcp: false, from_parts: true, preset_host: None });
-                v.push(TlsCase { scheme, host, port: None, cert: "good", client_alpn: BOTH, server_alpn: BOTH, fault: "plaintext-answer", h2_request: false, tcp: false, from_parts: true, preset_host: None });
+                v.push(TlsCase { scheme, host, port: None, cert: "wrongname", client_alpn: BOTH, server_alpn: BOTH, fault: "none", h2_request: false, tcp: false, from_parts: true, preset_host: None, userinfo: None });
+                v.push(TlsCase { scheme, host, port: None, cert: "good", client_alpn: BOTH, server_alpn: BOTH, fault: "plaintext-answer", h2_request: false, tcp: false, from_parts: true, preset_host: None, userinfo: None });
             }
         }
     }
@@ -458,8 +477,30 @@ pub fn gen_tls_cases(thorough: bool) -> Vec<TlsCase> {
                         if !thorough && h2_request && preset != "other.test" {
                             continue;
                         }
-                        v.push(TlsCase { scheme, host, port: None, cert, client_alpn: BOTH, server_alpn: BOTH, fault: "none", h2_request, tcp: false, from_parts: false, preset_host: Some(preset) });
+                        v.push(TlsCase { scheme, host, port: None, cert, client_alpn: BOTH, server_alpn: BOTH, fault: "none", h2_request, tcp: false, from_parts: false, preset_host: Some(preset), userinfo: None });
                     }
+                }
+            }
+        }
+    }
+    // hosts that look numeric but are not IPv4 literals: no panic, no plaintext, an error
+    for scheme in ["https", "wss", "http"] {
+        for host in ["1", "1.2.3", "example.123", "999.1.1.1", "1.2.3.4.5", "0x7f.1"] {
+            for port in [None, Some(8443u16)] {
+                v.push(TlsCase { scheme, host, port, cert: "good", client_alpn: BOTH, server_alpn: BOTH, fault: "none", h2_request: false, tcp: false, from_parts: false, preset_host: None, userinfo: None });
+            }
+        }
+    }
+    // user information in the authority: the TLS name is the URI *host*. The "good" certificate covers example.com,
+    // a.test, 127.0.0.1 and ::1 but not other.test.
+    for scheme in ["https", "wss"] {
+        for (userinfo, host) in [("example.com:x", "other.test"), ("example.com", "other.test"), ("a.test:443", "other.test"), ("user", "example.com"), ("user:pw", "a.test"), ("other.test:x", "example.com"), ("user:pw", "[::1]"), ("u", "127.0.0.1")] {
+            for port in [None, Some(8443u16)] {
+                for h2_request in [false, true] {
+                    if !thorough && h2_request && port.is_some() {
+                        continue;
+                    }
+                    v.push(TlsCase { scheme, host, port, cert: "good", client_alpn: BOTH, server_alpn: BOTH, fault: "none", h2_request, tcp: false, from_parts: false, preset_host: None, userinfo: Some(userinfo) });
                 }
             }
         }
@@ -468,11 +509,74 @@ pub fn gen_tls_cases(thorough: bool) -> Vec<TlsCase> {
     for scheme in ["https", "http", "wss"] {
         for host in ["a.test", "127.0.0.1", "example.com"] {
             for cert in ["good", "wrongname"] {
-                v.push(TlsCase { scheme, host, port: Some(8443), cert, client_alpn: BOTH, server_alpn: BOTH, fault: "none", h2_request: false, tcp: true, from_parts: false, preset_host: None });
+                v.push(TlsCase { scheme, host, port: Some(8443), cert, client_alpn: BOTH, server_alpn: BOTH, fault: "none", h2_request: false, tcp: true, from_parts: false, preset_host: None, userinfo: None });
             }
         }
     }
     v
+}
+
+// ---------------------------------------------------------------------------------------------
+// C12: sequences of requests through one pooled client
+// ---------------------------------------------------------------------------------------------
+
+/// Two servers behind one authority (a plain one and a TLS one); a *pooled* client sends requests with different
+/// schemes one after the other. Every https/wss request must travel inside TLS whatever the earlier requests left
+/// in the pool, and every other request in the clear.
+pub async fn run_tls_sequence(schemes: &[&'static str], host: &'static str, h2: bool) -> Vec<(String, String)> {
+    let mut problems = Vec::new();
+    let log = Arc::new(Log::default());
+    let gates = Gates::default();
+    let routes = Routes { log: log.clone(), tap_enabled: true, ..Default::default() };
+    let alpn: &[&str] = if h2 { &["h2", "http/1.1"] } else { &["http/1.1"] };
+    let plain = spawn_server(ServerSpec { id: 0, proto: Proto::Auto, net: Net::Duplex(16_384), tls: None, graceful: false, sni_validation: false }, log.clone(), gates.clone()).await;
+    let secure_srv = spawn_server(ServerSpec { id: 1, proto: Proto::Auto, net: Net::Duplex(16_384), tls: Some(Arc::new(server_tls("good", alpn))), graceful: false, sni_validation: false }, log.clone(), gates.clone()).await;
+    routes.add(&format!("plain|{host}"), plain.target.clone());
+    routes.add(&format!("tls|{host}"), secure_srv.target.clone());
+    let client = build_client(routes.clone(), Some(hyperdriver::client::PoolConfig::default()), Some(client_tls(alpn)), None);
+    for (i, scheme) in schemes.iter().enumerate() {
+        let id = 5000 + i as u64;
+        let marker = format!("{MARKER}-{i}-{scheme}");
+        let uri = format!("{scheme}://{host}/r/{id}/{marker}?m={marker}");
+        let req = Request::builder().method("POST").uri(uri).version(http::Version::HTTP_11).header("x-id", id).header("x-marker", marker.as_str()).body(ChunkBody::new(marker.clone().into_bytes(), 0, 0)).unwrap();
+        let c2 = client.clone();
+        let h = tokio::spawn(async move {
+            let resp = c2.oneshot(req).await.map_err(|e| format!("{e:?}"))?;
+            let st = resp.status().as_u16();
+            let _ = resp.into_body().collect().await;
+            Ok::<_, String>(st)
+        });
+        let res = match tokio::time::timeout(Duration::from_secs(3600), h).await {
+            Err(_) => Err("TIMEOUT".to_string()),
+            Ok(Err(j)) => Err(format!("PANIC {j}")),
+            Ok(Ok(r)) => r,
+        };
+        // let the connection find its way back into the pool
+        for _ in 0..3 {
+            tokio::time::sleep(Duration::from_millis(2)).await;
+        }
+        let in_clear = routes.taps.lock().unwrap().iter().any(|(_, t)| contains(&t.lock().unwrap().written, marker.as_bytes()));
+        let seq = schemes[..=i].join(",");
+        if secure(scheme) {
+            if in_clear {
+                problems.push((format!("sequence:plaintext-request-on-secure-scheme:{scheme}-after-{}", if i == 0 { "nothing" } else { schemes[i - 1] }), format!("request {i} ({scheme}://{host}) of the sequence [{seq}] through one pooled client travelled in the clear")));
+            }
+            if let Err(e) = &res {
+                problems.push((format!("sequence:valid-tls-request-failed:{scheme}"), format!("request {i} of [{seq}] failed: {e}")));
+            }
+        } else {
+            if !in_clear && res.is_ok() {
+                problems.push((format!("sequence:plain-scheme-wrapped-in-tls:{scheme}-after-{}", if i == 0 { "nothing" } else { schemes[i - 1] }), format!("request {i} ({scheme}://{host}) of [{seq}] succeeded but never appeared in the clear on any connection")));
+            }
+            if let Err(e) = &res {
+                problems.push((format!("sequence:plain-request-failed:{scheme}"), format!("request {i} of [{seq}] failed: {e}")));
+            }
+        }
+    }
+    drop(client);
+    plain.join.abort();
+    secure_srv.join.abort();
+    problems
 }
 
 // ---------------------------------------------------------------------------------------------
@@ -551,6 +655,35 @@ pub fn run(args: &Args) -> Report {
                 rt.block_on(run_tls_case(c))
             };
             judge_tls(c, &o, r, args);
+        });
+        rep.merge(part);
+    }
+    if args.wants("C12") && args.replay.is_none() {
+        let plain_s = ["http", "ws", "ftp", "HTTP", "Ws"];
+        let secure_s = ["https", "wss", "HTTPS", "Wss"];
+        let mut seqs: Vec<(Vec<&'static str>, &'static str, bool)> = Vec::new();
+        for a in plain_s.iter().chain(secure_s.iter()) {
+            for b in plain_s.iter().chain(secure_s.iter()) {
+                for (host, h2) in [("a.test", false), ("example.com:8443", true), ("127.0.0.1", false)] {
+                    seqs.push((vec![*a, *b], host, h2));
+                    if args.tier_thorough || (secure(a) != secure(b)) {
+                        seqs.push((vec![*a, *b, *a], host, h2));
+                    }
+                }
+            }
+        }
+        let sr = &seqs;
+        let part = crate::report::parallel(args.threads, seqs.len() as u64, "tlsworld", |i, r| {
+            let (schemes, host, h2) = &sr[i as usize];
+            let rt = tokio::runtime::Builder::new_current_thread().enable_all().start_paused(true).build().unwrap();
+            let problems = rt.block_on(run_tls_sequence(schemes, host, *h2));
+            let p = r.prop("C12", RULE12);
+            let replay = json!({"engine": "tlsworld", "sequence": schemes, "host": host, "h2": h2});
+            p.eval(Some(hash_of(&format!("{replay}"))));
+            p.count("sequences_through_one_pooled_client", 1);
+            for (sig, msg) in problems {
+                p.violation(sig, format!("{msg} | {replay}"), replay.clone());
+            }
         });
         rep.merge(part);
     }
